@@ -22,6 +22,7 @@ static unsigned gp_depth, gp_maxdepth;		/* get-page callbacks in progress / deep
  * through the same context (think of a frame table that lives in the memory it describes) */
 struct reent { uint64_t pfn, addr; };
 static struct reent reent[64]; static unsigned nreent; static int reent_as;
+static int reent_sys;		/* the callback's own read may use the translation system (read64 -> addrxlat_op) */
 static const char *curline = "";
 static addrxlat_fulladdr_t seen;
 static addrxlat_status cbst;
@@ -49,6 +50,7 @@ static unsigned depth_now(addrxlat_ctx_t *ctx)
 	return n;
 }
 static void put_page(const addrxlat_buffer_t *buf) { free((void *)buf->ptr); }
+static addrxlat_sys_t *sys;
 static addrxlat_status get_page(const addrxlat_cb_t *cb, addrxlat_buffer_t *buf)
 {
 	/* remember what was asked for: a nested read may recycle the very slot `buf` points into */
@@ -75,7 +77,7 @@ static addrxlat_status get_page(const addrxlat_cb_t *cb, addrxlat_buffer_t *buf)
 			m.kind = ADDRXLAT_MEMARR; m.target_as = ADDRXLAT_KPHYSADDR;
 			m.param.memarr.base.as = reent_as; m.param.memarr.base.addr = reent[i].addr;
 			m.param.memarr.shift = 0; m.param.memarr.elemsz = 8; m.param.memarr.valsz = 8;
-			step.ctx = cb->priv; step.sys = NULL; step.meth = &m; step.base.addr = 0;
+			step.ctx = cb->priv; step.sys = reent_sys ? sys : NULL; step.meth = &m; step.base.addr = 0;
 			st = addrxlat_walk(&step);
 			if (st != ADDRXLAT_OK) {
 				--gp_depth;
@@ -118,7 +120,7 @@ static addrxlat_status the_op(void *data, const addrxlat_fulladdr_t *fa)
 	return cbst;
 }
 
-static addrxlat_ctx_t *ctx; static addrxlat_cb_t *cb; static addrxlat_sys_t *sys;
+static addrxlat_ctx_t *ctx; static addrxlat_cb_t *cb;
 static void new_ctx(void)
 {
 	if (ctx) addrxlat_ctx_decref(ctx);
@@ -194,12 +196,14 @@ int main(void)
 			if (nbad < 256) { bad[nbad].as = t; bad[nbad].a = a; bad[nbad].st = 1000; ++nbad; }
 			new_ctx();
 		} else if (!strncmp(line, "clr", 3)) {
-			novr = 0; nbad = 0; nreent = 0;
+			novr = 0; nbad = 0; nreent = 0; reent_sys = 0;
 			new_ctx();
 		} else if (!strncmp(line, "newctx", 6)) {
 			new_ctx();
 		} else if (!strncmp(line, "reent off", 9)) {
 			nreent = 0;
+		} else if (sscanf(line, "reentsys %d", &t) == 1) {
+			reent_sys = t;
 		} else if (sscanf(line, "reent %d %4095s", &t, tb) == 2) {
 			char *p = tb;
 			reent_as = t; nreent = 0;
